@@ -13,7 +13,7 @@ pub fn gen(o: &Opts, sink: &mut dyn FnMut(Vec<i64>, String)) {
         vec![(7, 0x00, Some(0x11), 1), (2, 0x12, None, 1), (1, 0x4a, None, 1)],
         vec![(3, 0x20, None, 0), (6, 0x01, None, 2)],
     ];
-    // all 256 PDU formats x destination / group-extension classes x sources (each configured unit, the daemon, a stranger)
+    // all 256 PDU formats x destination / group-extension classes x sources (each configured unit, the daemon, a stranger, the null address 0xFE, 0xFF, 0x00)
     // x data with a boundary value in the first byte; 32 frames per authority instance
     let mut batch: Vec<i64> = Vec::new(); let mut nb = 0; let mut ci = 0usize;
     let mut flush = |batch: &mut Vec<i64>, ci: usize, k: &mut u64, sink: &mut dyn FnMut(Vec<i64>, String)| {
@@ -25,7 +25,7 @@ pub fn gen(o: &Opts, sink: &mut dyn FnMut(Vec<i64>, String)) {
     let first_bytes: &[i64] = if o.tier_thorough { &[0, 1, 2, 16, 17, 19, 20, 32, 127, 128, 254, 255] } else { &[0, 1, 16, 32, 255] };
     for pf in 0..256u32 {
         for ps in [0xffu32, 0x27, 0x00, 0x4a] {
-            let srcs: Vec<i64> = { let mut v: Vec<i64> = confs[ci % 3].iter().map(|d| d.1).collect(); v.push(0x27); v.push(0x99); v };
+            let srcs: Vec<i64> = { let mut v: Vec<i64> = confs[ci % 3].iter().map(|d| d.1).collect(); v.push(0x27); v.push(0x99); v.push(0xfe); v.push(0xff); v.push(0x00); v };
             for src in srcs {
                 if !o.tier_thorough && (pf as i64 + ps as i64 + src) % 3 != 0 && !(232..=238).contains(&pf) { continue; }
                 for b0 in first_bytes {
